@@ -22,7 +22,7 @@ def eval_program(arg) -> dict:
     common.import_dznpy()
     prog, case, rng = progrun.make_program(
         PROP, seed, stream, scratch, stream % 3 == 1,
-        mc_position=['first', 'middle', 'last'][(stream // 3) % 3])
+        mc_position=['first', 'middle', 'last'][(stream // 3) % 3], mc_shape=stream // 3)
     # cover every semantics x direction combination in every run, whatever the random draw
     if stream % 2 == 0:
         prog.enc['requires'] = {'sts': 'NONE', 'mts': 'ALL'}
